@@ -25,7 +25,8 @@ type tfFeed struct {
 	C     int  `json:"c"`
 	Multi bool `json:"multi,omitempty"`
 	Dump  bool `json:"dump,omitempty"`
-	Cp    bool `json:"cp,omitempty"` // with a CheckpointPrefix: the feed persists a checkpoint when it ends
+	Cp    bool `json:"cp,omitempty"`   // with a CheckpointPrefix: the feed persists a checkpoint when it ends
+	CpSh  bool `json:"cpSh,omitempty"` // ... and the same prefix and feed ID as every other such feed
 }
 
 type tfAction struct {
@@ -196,6 +197,9 @@ func runFeedScenario(c tfCase) (res shutResult) {
 		prefix := ""
 		if f.Cp {
 			prefix = "cp16"
+		}
+		if f.CpSh {
+			prefix = "cp16s"
 		}
 		col, err := w.startFeed(FeedCfg{H: f.H, C: f.C, Multi: f.Multi}, backfill, f.Dump, prefix)
 		if err != nil {
@@ -477,6 +481,7 @@ func genFeedCase(rt *rapid.T) tfCase {
 		f.Multi = chance(rt, 25, "feed.multi")
 		f.Dump = !f.Multi && chance(rt, 15, "feed.dump")
 		f.Cp = chance(rt, 30, "feed.cp")
+		f.CpSh = f.Cp && chance(rt, 50, "feed.cpshared")
 		c.Feeds = append(c.Feeds, f)
 	}
 	na := rapid.IntRange(1, 9).Draw(rt, "nactions")
